@@ -28,7 +28,7 @@ ASSUMPTIONS = [
     "proved in general: verify_iff / never panics, append returns the path, update_from_leaf_mutation, batch_update_from_leaf_mutation, batch_update_from_batch_leaf_mutation, batch_mutate_leaf_and_update_mps (exact paths and exact `modified`); still open in general (bounded vm_compute theorem up to 48 leafs + correspondence + oracle SPECDIFF only): update_from_append, batch_update_from_append, and therefore the history invariant for histories containing appends with tracked proofs",
     "`valid proof` means: the authentication path of the specification (path ls i); C05_path_verifies shows it verifies; uniqueness of verifying paths would need collision resistance of H and is not claimed",
 ]
-RULE = ("operation histories of 1..300 (quick) / ..3000 (thorough) ops mixing append/mutate/batch-mutate through every update "
+RULE = ("SYNTHETIC accumulators MmrAccumulator::init(peaks, count) with hand-built valid proofs for bit-pattern counts up to 2^63-1 (2^k, 2^k-1, >= 33 trailing ones, count XOR index just below a power of two) through verify / append-update / mutate / batch-mutate / verify_batch_update; operation histories of 1..300 (quick) / ..3000 (thorough) ops mixing append/mutate/batch-mutate through every update "
         "routine, tracked subsets in random hand-over order, counts steered through 2^k-1 -> 2^k, mutated leafs that are "
         "siblings / share ancestors / keep the old value; exhaustive small scope (counts <= 16, mutation subsets <= 3, tracked "
         "subsets <= 2); malformed verification claims around every structural bound; distinct = distinct case text")
@@ -74,6 +74,7 @@ def vfy_cases(rng, big):
 def cases(tier, rng):
     big = tier == "thorough"
     out = vfy_cases(rng, big)
+    out += mc.syn_cases(rng, big, ("v", "a", "m", "b", "w", "wx"))
     nh = 500 if big else 140
     for k in range(nh):
         nops = rng.choice((1, 2, 3, 5, 8, 13, 24, 25, 40, 80, 150, 300))
